@@ -907,3 +907,518 @@ Qed.
 
 Theorem page_size_prefix_diverges fuel m : 0 < m -> page_size_prefix fuel 0 m = None.
 Proof. intros Hm. unfold page_size_prefix. change (2 * 0) with 0. now rewrite grow_loop_zero. Qed.
+
+(* ------------------------------------------------------------------------------------------------ *)
+(* single goroutine: the regime is automatic, replay after Reset                                     *)
+(* ------------------------------------------------------------------------------------------------ *)
+Definition chunk_bound (cs : list (option N)) : Prop := forall i, chunk_len cs i <= 2 * max_alloc.
+
+Definition seq_pc (st : astate) (p : apc) : Prop :=
+  match p with
+  | TDone (OPanic PTooBig) => off st <= 2 * max_alloc /\ lock st = None
+  | TDone (OPanic _) => True
+  | TIdle | TDone _ | TReq _ => off st <= 2 * max_alloc /\ lock st = None
+  | TAdded sz pos => pos = compIdx st /\ off st <= 2 * max_alloc + sz /\ lock st = None
+  | TFits sz b p => b = cur st /\ p = off st /\ lock st = None
+  | TWantLock sz b => b = cur st /\ lock st = None
+  | TLocked sz b | TGrow sz b | TGrown sz b => b = cur st
+  | TUnlocking sz => off st = 0
+  end.
+
+Record SeqX (st : astate) : Prop := {
+  sx_inv : Inv st;
+  sx_one : length (threads st) = 1%nat;
+  sx_cb : chunk_bound (chunks st);
+  sx_pc : seq_pc st (get_pc st 0)
+}.
+
+Lemma page_size_le prev m p : page_size prev m = Some p -> p <= max_alloc.
+Proof.
+  unfold page_size. destruct (grow_loop 64 _ m) as [q|]; [|discriminate].
+  destruct (N.ltb_spec max_alloc q); intros E; inversion E; subst; lia.
+Qed.
+
+Lemma add_buffer_at_bound cs k m cs' : add_buffer_at cs k m = ABOk cs' -> chunk_bound cs -> chunk_bound cs'.
+Proof.
+  unfold add_buffer_at. destruct (ab_find 65 cs k m) as [| |j|]; try discriminate.
+  - intros E; inversion E; subst; auto.
+  - destruct (page_size _ m) as [p|] eqn:Ep; [|discriminate]. intros E; inversion E; subst. intros Hb i.
+    apply page_size_le in Ep. unfold chunk_len.
+    destruct (N.eq_dec j i) as [->|Hne].
+    + destruct (N.ltb_spec i (lenN cs)).
+      * rewrite nthN_updN_same by auto. rewrite max_alloc_val in *. lia.
+      * unfold updN. rewrite upd_oob by (unfold lenN in *; lia). apply Hb.
+    + rewrite nthN_updN_other by auto. apply Hb.
+Qed.
+
+Lemma one_thread st t : length (threads st) = 1%nat -> get_pc st t <> TIdle -> t = 0%nat.
+Proof. intros H1 H. apply get_pc_live in H. lia. Qed.
+
+Lemma get_pc_other_one st t : length (threads st) = 1%nat -> t <> 0%nat -> get_pc st t = TIdle.
+Proof. intros H1 Ht. unfold get_pc. apply nth_overflow. lia. Qed.
+
+Definition ext (cs cf : list (option N)) : Prop :=
+  length cf = length cs /\ forall i, chunk_len cs i <> 0 -> nthN cf i None = nthN cs i None.
+Definition frozen (st : astate) (cf : list (option N)) : Prop :=
+  forall i, i <= cur st -> nthN cf i None = nthN (chunks st) i None.
+
+Lemma ext_refl cs : ext cs cs.
+Proof. split; auto. Qed.
+Lemma ext_trans a b c : ext a b -> ext b c -> ext a c.
+Proof.
+  intros (L1 & H1) (L2 & H2). split; [congruence|]. intros i Hi. rewrite H2; [apply H1; auto|].
+  unfold chunk_len in *. rewrite H1; auto.
+Qed.
+
+Lemma seqx_nocarry st sz : SeqX st -> get_pc st 0 = TReq sz -> off st + sz < two32.
+Proof.
+  intros HX E. pose proof (sx_pc _ HX) as Hp. rewrite E in Hp. cbn [seq_pc] in Hp.
+  pose proof (inv_pcs _ (sx_inv _ HX) 0%nat) as Hk. rewrite E in Hk. cbn [pc_ok] in Hk.
+  destruct Hk as (_ & Hk). rewrite two32_val, max_alloc_val in *. lia.
+Qed.
+
+Lemma seqx_step st st' : SeqX st -> thread_step st 0 = Some st' ->
+  SeqX st' /\ cur st <= cur st' /\ ext (chunks st) (chunks st') /\ frozen st (chunks st').
+Proof.
+  intros HX H.
+  assert (HI' : Inv st').
+  { eapply inv_thread_step; [apply (sx_inv _ HX)|exact H|].
+    destruct (get_pc st 0) eqn:E; auto. now apply seqx_nocarry. }
+  pose proof (sx_inv _ HX) as HI. pose proof (sx_one _ HX) as H1. pose proof (sx_cb _ HX) as Hcb.
+  pose proof (sx_pc _ HX) as Hp. pose proof (inv_pcs _ HI 0%nat) as Hk.
+  assert (H0 : (0 < length (threads st))%nat) by lia.
+  unfold thread_step in H. destruct (get_pc st 0) eqn:E; try discriminate; cbn [seq_pc pc_ok] in Hp, Hk.
+  - (* TReq *)
+    pose proof (seqx_nocarry st sz HX E) as Hnc.
+    destruct (faa_nocarry (compIdx st) sz (inv_cur _ HI) Hnc) as (Ea & Ec & Ep).
+    inversion H; subst st'; clear H. rewrite Ea in *.
+    split; [|split; [|split]].
+    + constructor; auto.
+      * rewrite length_set_pc. exact H1.
+      * rewrite get_set_same by (sstate; auto). cbn [seq_pc]. unfold off, cur in *. sstate.
+        rewrite Ep. split; [reflexivity|]. split; [lia|apply Hp].
+    + unfold cur; sstate. rewrite Ec. lia.
+    + apply ext_refl.
+    + intros i _. reflexivity.
+  - (* TAdded *)
+    destruct Hp as (-> & Hoff & HL).
+    assert (G : forall p', SeqX (set_pc st 0 p') <-> (Inv (set_pc st 0 p') /\ seq_pc st p')).
+    { intros p'. split.
+      - intros HX'. split; [apply (sx_inv _ HX')|]. pose proof (sx_pc _ HX') as Hq.
+        rewrite get_set_same in Hq by auto. exact Hq.
+      - intros (Hi & Hq). constructor; auto; [rewrite length_set_pc; auto|rewrite get_set_same by auto; exact Hq]. }
+    change (cidx (compIdx st)) with (cur st) in *. change (cpos (compIdx st)) with (off st) in *.
+    assert (R : SeqX st' /\ chunks st' = chunks st /\ cur st' = cur st).
+    { destruct (lenN (chunks st) <=? cur st); [|destruct (chunk_len (chunks st) (cur st) <? off st) eqn:El];
+        inversion H; subst st'; (split; [apply G; split; [exact HI'|]|split; reflexivity]); cbn [seq_pc]; auto. }
+    destruct R as (R1 & R2 & R3). split; [exact R1|]. split; [lia|]. rewrite R2. split; [apply ext_refl|intros i _; reflexivity].
+  - (* TFits *)
+    destruct Hp as (-> & -> & HL). destruct Hk as (_ & _ & _ & _ & Hle).
+    pose proof (Hcb (cur st)) as Hcbc.
+    assert (R : SeqX st' /\ chunks st' = chunks st /\ cur st' = cur st).
+    { destruct (off st <? sz); inversion H; subst st'; (split; [|split; reflexivity]);
+        (constructor; [exact HI'|rewrite length_set_pc; exact H1|exact Hcb|]);
+        rewrite get_set_same by (sstate; auto); cbn [seq_pc]; auto.
+      split; [|exact HL]. change (off (set_pc (set_handed st ((cur st, off st - sz, sz) :: handed st)) 0
+                                           (TDone (ORange (cur st) (off st - sz) sz)))) with (off st). lia. }
+    destruct R as (R1 & R2 & R3). split; [exact R1|]. split; [lia|]. rewrite R2. split; [apply ext_refl|intros i _; reflexivity].
+  - (* TWantLock *)
+    destruct Hp as (-> & HL). rewrite HL in H. inversion H; subst st'; clear H.
+    split; [|split; [unfold cur; sstate; lia|split; [apply ext_refl|intros i _; reflexivity]]].
+    constructor; auto; [rewrite length_set_pc; exact H1|].
+    rewrite get_set_same by (sstate; auto). cbn [seq_pc]. reflexivity.
+  - (* TLocked *)
+    subst b. unfold cur in H. rewrite N.eqb_refl in H. inversion H; subst st'; clear H.
+    split; [|split; [unfold cur; sstate; lia|split; [apply ext_refl|intros i _; reflexivity]]].
+    constructor; auto; [rewrite length_set_pc; exact H1|].
+    rewrite get_set_same by auto. cbn [seq_pc]. reflexivity.
+  - (* TGrow *)
+    subst b. destruct Hk as (Hs & _).
+    pose proof (add_buffer_at_spec (chunks st) (cur st + 1) sz (inv_len _ HI) (proj2 Hs)) as Hab.
+    destruct (add_buffer_at (chunks st) (cur st + 1) sz) as [| |cs] eqn:Eab; [|contradiction|];
+      inversion H; subst st'; clear H.
+    + split; [|split; [unfold cur; sstate; lia|split; [apply ext_refl|intros i _; reflexivity]]].
+      constructor; auto; [rewrite length_set_pc; exact H1|].
+      rewrite get_set_same by auto. cbn [seq_pc]. exact I.
+    + destruct Hab as (Hlen & Hk1 & Hsame).
+      split; [|split; [unfold cur; sstate; lia|split]].
+      * constructor; auto; [rewrite length_set_pc; exact H1| |].
+        -- sstate. eapply add_buffer_at_bound; eauto.
+        -- rewrite get_set_same by (sstate; auto). cbn [seq_pc]. reflexivity.
+      * sstate. apply add_buffer_at_stable in Eab. exact Eab.
+      * intros i Hi. sstate. apply Hsame. left. lia.
+  - (* TGrown *)
+    subst b. destruct Hk as (_ & _ & Hb1). destruct (store_next (cur st) Hb1) as (Ec & Ep).
+    inversion H; subst st'; clear H.
+    split; [|split; [unfold cur in *; sstate; rewrite Ec; lia|split; [apply ext_refl|intros i _; reflexivity]]].
+    constructor; auto; [rewrite length_set_pc; exact H1|].
+    rewrite get_set_same by (sstate; auto). cbn [seq_pc]. unfold off; sstate. exact Ep.
+  - (* TUnlocking *)
+    inversion H; subst st'; clear H.
+    split; [|split; [unfold cur; sstate; lia|split; [apply ext_refl|intros i _; reflexivity]]].
+    constructor; auto; [rewrite length_set_pc; exact H1|].
+    rewrite get_set_same by (sstate; auto). cbn [seq_pc]. unfold off, cur in *; sstate. split; [lia|reflexivity].
+Qed.
+
+Lemma frozen_mono st st' cf : cur st <= cur st' -> frozen st (chunks st') -> frozen st' cf -> frozen st cf.
+Proof. intros Hc F1 F2 i Hi. rewrite F2 by lia. apply F1; auto. Qed.
+
+(* what the rest of a call can still do to the chunks *)
+Lemma run_thread_future fuel : forall st st' o, SeqX st -> run_thread fuel st 0 = (st', o) ->
+  SeqX st' /\ cur st <= cur st' /\ ext (chunks st) (chunks st') /\ frozen st (chunks st').
+Proof.
+  induction fuel as [|f IH]; intros st st' o HX H.
+  - cbn [run_thread] in H. assert (st' = st) by (destruct (get_pc st 0); inversion H; auto). subst.
+    split; auto. split; [lia|]. split; [apply ext_refl|intros i _; reflexivity].
+  - cbn [run_thread] in H.
+    assert (D : (exists o', get_pc st 0 = TDone o' /\ st' = st) \/
+                (match thread_step st 0 with None => (st, None) | Some s1 => run_thread f s1 0 end) = (st', o)).
+    { destruct (get_pc st 0) eqn:E; auto. left. exists o0. inversion H; auto. }
+    destruct D as [(o' & _ & ->)|D].
+    + split; auto. split; [lia|]. split; [apply ext_refl|intros i _; reflexivity].
+    + destruct (thread_step st 0) as [s1|] eqn:Es.
+      * destruct (seqx_step st s1 HX Es) as (HX1 & Hc1 & He1 & Hf1).
+        destruct (IH s1 st' o HX1 D) as (HX' & Hc' & He' & Hf').
+        split; auto. split; [lia|]. split; [eapply ext_trans; eauto|].
+        eapply frozen_mono; eauto.
+      * inversion D; subst. split; auto. split; [lia|]. split; [apply ext_refl|intros i _; reflexivity].
+Qed.
+
+(* ---- the second run: same state except that the chunks are already the final ones ---- *)
+Definition rel (sA sB : astate) (cf : list (option N)) : Prop :=
+  compIdx sB = compIdx sA /\ lock sB = lock sA /\ threads sB = threads sA /\ handed sB = handed sA /\ chunks sB = cf.
+
+Lemma rel_get sA sB cf t : rel sA sB cf -> get_pc sB t = get_pc sA t.
+Proof. intros (_ & _ & Ht & _). unfold get_pc. now rewrite Ht. Qed.
+
+Lemma ab_find_ext fuel cs cf m : ext cs cf -> forall i,
+  match ab_find fuel cs i m with
+  | ABEnough => ab_find fuel cf i m = ABEnough
+  | ABLimit => ab_find fuel cf i m = ABLimit
+  | ABSlot j => forall p, nthN cf j None = Some p -> m <= p -> 0 < p -> ab_find fuel cf i m = ABEnough
+  | ABFuel => True
+  end.
+Proof.
+  intros (Hl & He). induction fuel as [|f IH]; intros i; cbn [ab_find]; auto.
+  assert (El : lenN cf = lenN cs) by (unfold lenN; now rewrite Hl). rewrite El.
+  destruct (N.leb_spec (lenN cs) i); auto.
+  destruct (N.eqb_spec (chunk_len cs i) 0) as [Hz|Hnz].
+  - intros p Ep Hm Hp. unfold chunk_len at 1. rewrite Ep.
+    destruct (N.eqb_spec p 0); [lia|]. unfold chunk_len. rewrite Ep.
+    destruct (N.leb_spec m p); [reflexivity|lia].
+  - assert (Ec : chunk_len cf i = chunk_len cs i) by (unfold chunk_len; now rewrite He).
+    rewrite Ec. destruct (N.eqb_spec (chunk_len cs i) 0); [contradiction|].
+    destruct (N.leb_spec m (chunk_len cs i)); auto. apply IH.
+Qed.
+
+Lemma add_buffer_at_ext cs cf k m : length cs = nbuf -> m <= max_alloc ->
+  match add_buffer_at cs k m with
+  | ABOk cs' => ext cs' cf -> add_buffer_at cf k m = ABOk cf
+  | ABPanic => ext cs cf -> add_buffer_at cf k m = ABPanic
+  | ABHang => True
+  end.
+Proof.
+  intros Hlen Hm. unfold add_buffer_at.
+  pose proof (ab_find_spec 65 cs k m) as Hs.
+  destruct (ab_find 65 cs k m) as [| |j|] eqn:E; auto.
+  - intros He. pose proof (ab_find_ext 65 cs cf m He k) as Hx. rewrite E in Hx. now rewrite Hx.
+  - intros He. pose proof (ab_find_ext 65 cs cf m He k) as Hx. rewrite E in Hx. now rewrite Hx.
+  - destruct Hs as (Hkj & Hj & Hz).
+    destruct (page_size_some (chunk_len cs (j - 1)) m Hm) as (p & Ep & Hmp & Hp). rewrite Ep.
+    intros (Hl & He).
+    assert (Ej : nthN cf j None = Some p).
+    { rewrite He; [apply nthN_updN_same; auto|]. unfold chunk_len. rewrite nthN_updN_same by auto. lia. }
+    (* cf also extends cs: every non-empty slot of cs is untouched by the update *)
+    assert (He0 : ext cs cf).
+    { split; [rewrite Hl; unfold updN; apply length_upd|].
+      intros i Hi. rewrite He.
+      - apply nthN_updN_other. intros ->. contradiction.
+      - unfold chunk_len. rewrite nthN_updN_other by (intros ->; contradiction). exact Hi. }
+    pose proof (ab_find_ext 65 cs cf m He0 k) as Hx. rewrite E in Hx. now rewrite (Hx p Ej Hmp Hp).
+Qed.
+
+Lemma sim_step sA sB cf sA1 : SeqX sA -> rel sA sB cf -> thread_step sA 0 = Some sA1 ->
+  ext (chunks sA1) cf -> frozen sA1 cf ->
+  exists sB1, thread_step sB 0 = Some sB1 /\ rel sA1 sB1 cf.
+Proof.
+  intros HX HR H He Hf.
+  pose proof (rel_get sA sB cf 0%nat HR) as G. destruct HR as (Rc & Rl & Rt & Rh & Rk).
+  pose proof (sx_inv _ HX) as HI. pose proof (sx_pc _ HX) as Hp. pose proof (inv_pcs _ HI 0%nat) as Hk.
+  unfold thread_step in *. rewrite G. destruct (get_pc sA 0) eqn:E; try discriminate; cbn [seq_pc pc_ok] in Hp, Hk.
+  - inversion H; subst sA1. eexists; split; [reflexivity|]. unfold rel, set_pc, set_comp; sstate. rewrite Rc, Rt. auto.
+  - destruct Hp as (-> & _ & _).
+    assert (El : lenN (chunks sB) = lenN (chunks sA)).
+    { destruct He as (Hl & _). unfold lenN. rewrite Rk, Hl.
+      destruct (lenN (chunks sA) <=? cidx (compIdx sA));
+        [|destruct (chunk_len (chunks sA) (cidx (compIdx sA)) <? cpos (compIdx sA))]; inversion H; subst; reflexivity. }
+    assert (Ec : chunk_len (chunks sB) (cidx (compIdx sA)) = chunk_len (chunks sA) (cidx (compIdx sA))).
+    { unfold chunk_len. rewrite Rk.
+      assert (Hfz : nthN cf (cidx (compIdx sA)) None = nthN (chunks sA1) (cidx (compIdx sA)) None).
+      { apply Hf. unfold cur.
+        destruct (lenN (chunks sA) <=? cidx (compIdx sA));
+          [|destruct (chunk_len (chunks sA) (cidx (compIdx sA)) <? cpos (compIdx sA))]; inversion H; subst; sstate; lia. }
+      rewrite Hfz.
+      destruct (lenN (chunks sA) <=? cidx (compIdx sA));
+        [|destruct (chunk_len (chunks sA) (cidx (compIdx sA)) <? cpos (compIdx sA))]; inversion H; subst; reflexivity. }
+    rewrite El, Ec.
+    destruct (lenN (chunks sA) <=? cidx (compIdx sA));
+      [|destruct (chunk_len (chunks sA) (cidx (compIdx sA)) <? cpos (compIdx sA))]; inversion H; subst sA1;
+      (eexists; split; [reflexivity|]); unfold rel, set_pc; sstate; rewrite Rt; auto.
+  - destruct (p <? sz); inversion H; subst sA1; (eexists; split; [reflexivity|]);
+      unfold rel, set_pc, set_handed; sstate; rewrite Rt, Rh; auto.
+  - rewrite Rl. destruct (lock sA); [discriminate|]. inversion H; subst sA1.
+    eexists; split; [reflexivity|]. unfold rel, set_pc, set_lock; sstate. rewrite Rt; auto.
+  - rewrite Rc. destruct (cidx (compIdx sA) =? b); inversion H; subst sA1; (eexists; split; [reflexivity|]);
+      unfold rel, set_pc; sstate; rewrite Rt; auto.
+  - subst b. destruct Hk as (Hs & _).
+    pose proof (add_buffer_at_ext (chunks sA) cf (cur sA + 1) sz (inv_len _ HI) (proj2 Hs)) as Hx.
+    rewrite Rk.
+    destruct (add_buffer_at (chunks sA) (cur sA + 1) sz) as [| |cs] eqn:Eab; inversion H; subst sA1; sstate.
+    + rewrite (Hx He). eexists; split; [reflexivity|]. unfold rel, set_pc; sstate. rewrite Rt; auto.
+    + pose proof (add_buffer_at_spec (chunks sA) (cur sA + 1) sz (inv_len _ HI) (proj2 Hs)) as Hab.
+      rewrite Eab in Hab. contradiction.
+    + rewrite (Hx He). eexists; split; [reflexivity|]. unfold rel, set_pc, set_chunks; sstate. rewrite Rt; auto.
+  - inversion H; subst sA1. eexists; split; [reflexivity|]. unfold rel, set_pc, set_comp; sstate. rewrite Rt; auto.
+  - inversion H; subst sA1. eexists; split; [reflexivity|]. unfold rel, set_pc, set_lock; sstate. rewrite Rt; auto.
+Qed.
+
+Lemma sim_step_none sA sB cf : rel sA sB cf -> thread_step sA 0 = None -> thread_step sB 0 = None.
+Proof.
+  intros HR H. pose proof (rel_get sA sB cf 0%nat HR) as G. destruct HR as (Rc & Rl & Rt & Rh & Rk).
+  unfold thread_step in *. rewrite G.
+  destruct (get_pc sA 0); auto;
+    repeat match type of H with
+           | (if ?c then _ else _) = _ => destruct c
+           | match add_buffer_at ?a ?b ?c with _ => _ end = _ => destruct (add_buffer_at a b c)
+           end; try discriminate.
+  rewrite Rl. reflexivity.
+Qed.
+
+Lemma pc_done_dec p : (exists o, p = TDone o) \/ (forall o, p <> TDone o).
+Proof. destruct p; try (right; intros o; discriminate). left; eauto. Qed.
+
+Lemma sim_run_thread fuel : forall sA sB sAe o cf, SeqX sA -> rel sA sB cf ->
+  run_thread fuel sA 0 = (sAe, o) -> ext (chunks sAe) cf -> frozen sAe cf ->
+  exists sBe, run_thread fuel sB 0 = (sBe, o) /\ rel sAe sBe cf.
+Proof.
+  induction fuel as [|f IH]; intros sA sB sAe o cf HX HR H He Hf;
+    pose proof (rel_get sA sB cf 0%nat HR) as G;
+    destruct (pc_done_dec (get_pc sA 0)) as [(o' & E)|E].
+  - rewrite (run_thread_done _ _ _ _ E) in H. inversion H; subst.
+    exists sB. rewrite (run_thread_done 0 sB 0%nat o'); [auto|congruence].
+  - rewrite run_thread_zero in H by auto. inversion H; subst.
+    exists sB. rewrite run_thread_zero; [auto|]. rewrite G; auto.
+  - rewrite (run_thread_done _ _ _ _ E) in H. inversion H; subst.
+    exists sB. rewrite (run_thread_done (S f) sB 0%nat o'); [auto|congruence].
+  - rewrite run_thread_unfold in H by auto. rewrite run_thread_unfold by (rewrite G; auto).
+    destruct (thread_step sA 0) as [sA1|] eqn:Es.
+    + destruct (seqx_step sA sA1 HX Es) as (HX1 & _).
+      destruct (run_thread_future f sA1 sAe o HX1 H) as (_ & Hc & He1 & Hf1).
+      destruct (sim_step sA sB cf sA1 HX HR Es) as (sB1 & EsB & HR1).
+      { eapply ext_trans; eauto. }
+      { eapply frozen_mono; eauto. }
+      rewrite EsB. eapply IH; eauto.
+    + rewrite (sim_step_none sA sB cf HR Es). inversion H; subst. exists sB; auto.
+Qed.
+
+Lemma run_thread_result fuel : forall st t st' o, run_thread fuel st t = (st', Some o) -> get_pc st' t = TDone o.
+Proof.
+  induction fuel as [|f IH]; intros st t st' o H; destruct (pc_done_dec (get_pc st t)) as [(o' & E)|E].
+  - rewrite (run_thread_done _ _ _ _ E) in H. inversion H; subst; auto.
+  - rewrite run_thread_zero in H by auto. discriminate.
+  - rewrite (run_thread_done _ _ _ _ E) in H. inversion H; subst; auto.
+  - rewrite run_thread_unfold in H by auto. destruct (thread_step st t); [eauto|discriminate].
+Qed.
+
+Definition good (o : option aoutcome) : Prop :=
+  match o with
+  | Some ONil | Some (ORange _ _ _) | Some (OPanic PTooBig) => True
+  | _ => False
+  end.
+
+(* between calls: the goroutine is back, the mutex is free, the offset is inside the current chunk *)
+Definition SeqQ (st : astate) : Prop :=
+  SeqX st /\ pc_returned (get_pc st 0) = true /\ off st <= 2 * max_alloc /\ lock st = None.
+
+Lemma upd_one {A} (l : list A) p : length l = 1%nat -> upd l 0 p = [p].
+Proof. destruct l as [|a [|b l]]; cbn; intros; try discriminate; reflexivity. Qed.
+
+Lemma seqq_start st sz : SeqQ st -> SeqX (set_pc st 0 (start_pc sz)).
+Proof.
+  intros (HX & Hr & Ho & Hl). pose proof (sx_one _ HX) as H1.
+  constructor.
+  - apply inv_start; [apply (sx_inv _ HX)|lia|exact Hr].
+  - rewrite length_set_pc. exact H1.
+  - apply (sx_cb _ HX).
+  - rewrite get_set_same by lia. unfold start_pc.
+    destruct (max_alloc <? sz); [|destruct (sz =? 0)]; cbn [seq_pc]; auto.
+Qed.
+
+Lemma alloc_seq_unfold st sz : SeqQ st -> alloc_seq st 0 sz = run_thread seq_fuel (set_pc st 0 (start_pc sz)) 0.
+Proof.
+  intros (HX & Hr & _). unfold alloc_seq. cbn [astep]. rewrite Hr, (sx_one _ HX). reflexivity.
+Qed.
+
+Lemma alloc_seq_future st sz st' o : SeqQ st -> alloc_seq st 0 sz = (st', o) ->
+  cur st <= cur st' /\ ext (chunks st) (chunks st') /\ frozen st (chunks st') /\ (good o -> SeqQ st').
+Proof.
+  intros HQ H. rewrite (alloc_seq_unfold st sz HQ) in H.
+  pose proof (seqq_start st sz HQ) as HX0.
+  destruct (run_thread_future _ _ _ _ HX0 H) as (HX' & Hc & He & Hf).
+  split; [exact Hc|]. split; [exact He|]. split; [exact Hf|].
+  intros Hg. destruct o as [o|]; [|contradiction].
+  pose proof (run_thread_result _ _ _ _ _ H) as E. pose proof (sx_pc _ HX') as Hp. rewrite E in Hp.
+  split; [exact HX'|]. split; [rewrite E; reflexivity|].
+  destruct o as [| |[]]; cbn [good seq_pc] in *; try contradiction; exact Hp.
+Qed.
+
+Lemma alloc_list_future szs : forall st st' outs, SeqQ st -> alloc_list st 0 szs = (st', outs) -> Forall good outs ->
+  SeqQ st' /\ cur st <= cur st' /\ ext (chunks st) (chunks st') /\ frozen st (chunks st').
+Proof.
+  induction szs as [|sz r IH]; intros st st' outs HQ H Hg; cbn [alloc_list] in H.
+  - inversion H; subst. split; auto. split; [lia|]. split; [apply ext_refl|intros i _; reflexivity].
+  - destruct (alloc_seq st 0 sz) as [s1 o] eqn:E1. destruct (alloc_list s1 0 r) as [s2 os] eqn:E2.
+    inversion H; subst. inversion Hg; subst.
+    destruct (alloc_seq_future _ _ _ _ HQ E1) as (Hc1 & He1 & Hf1 & HQ1).
+    destruct (IH _ _ _ (HQ1 H2) E2 H3) as (HQ2 & Hc2 & He2 & Hf2).
+    split; auto. split; [lia|]. split; [eapply ext_trans; eauto|eapply frozen_mono; eauto].
+Qed.
+
+Definition relq (sA sB : astate) (cf : list (option N)) : Prop :=
+  compIdx sB = compIdx sA /\ lock sB = lock sA /\ handed sB = handed sA /\ chunks sB = cf /\
+  length (threads sB) = 1%nat /\ pc_returned (get_pc sB 0) = true.
+
+Lemma sim_alloc_seq sA sB cf sz sA' o : SeqQ sA -> relq sA sB cf ->
+  alloc_seq sA 0 sz = (sA', o) -> ext (chunks sA') cf -> frozen sA' cf ->
+  exists sB', alloc_seq sB 0 sz = (sB', o) /\ rel sA' sB' cf.
+Proof.
+  intros HQ (Rc & Rl & Rh & Rk & R1 & Rr) H He Hf.
+  rewrite (alloc_seq_unfold sA sz HQ) in H.
+  unfold alloc_seq at 1. cbn [astep]. rewrite Rr, R1. cbn [Nat.ltb Nat.leb andb].
+  eapply sim_run_thread; eauto.
+  - now apply seqq_start.
+  - destruct HQ as (HX & _). unfold rel, set_pc; sstate. rewrite !upd_one by (auto; apply (sx_one _ HX)). auto.
+Qed.
+
+Lemma rel_relq sA sB cf : SeqQ sA -> rel sA sB cf -> relq sA sB cf.
+Proof.
+  intros (HX & Hr & _) HR. pose proof (rel_get sA sB cf 0%nat HR) as G.
+  destruct HR as (Rc & Rl & Rt & Rh & Rk). unfold relq. rewrite G, Rt. repeat split; auto. apply (sx_one _ HX).
+Qed.
+
+Lemma sim_alloc_list szs : forall sA sB cf sA' outs, SeqQ sA -> relq sA sB cf ->
+  alloc_list sA 0 szs = (sA', outs) -> Forall good outs -> ext (chunks sA') cf -> frozen sA' cf ->
+  exists sB', alloc_list sB 0 szs = (sB', outs) /\ ((szs = [] /\ sB' = sB) \/ rel sA' sB' cf).
+Proof.
+  induction szs as [|sz r IH]; intros sA sB cf sA' outs HQ HR H Hg He Hf; cbn [alloc_list] in *.
+  - inversion H; subst. exists sB. auto.
+  - destruct (alloc_seq sA 0 sz) as [s1 o] eqn:E1. destruct (alloc_list s1 0 r) as [s2 os] eqn:E2.
+    inversion H; subst. inversion Hg; subst.
+    destruct (alloc_seq_future _ _ _ _ HQ E1) as (_ & _ & _ & HQ1). specialize (HQ1 H2).
+    destruct (alloc_list_future _ _ _ _ HQ1 E2 H3) as (_ & Hc2 & He2 & Hf2).
+    destruct (sim_alloc_seq sA sB cf sz s1 o HQ HR E1) as (sB1 & EB1 & HR1).
+    { eapply ext_trans; eauto. }
+    { eapply frozen_mono; eauto. }
+    rewrite EB1.
+    destruct (IH s1 sB1 cf sA' os HQ1 (rel_relq _ _ _ HQ1 HR1) E2 H3 He Hf) as (sB2 & EB2 & Hend).
+    rewrite EB2. exists sB2. split; [reflexivity|]. right.
+    destruct Hend as [(-> & ->)|HR2]; [|exact HR2].
+    cbn [alloc_list] in E2. inversion E2; subst. exact HR1.
+Qed.
+
+(* ---- the states between calls of a single-goroutine history: closed under Reset, TrimTo and successful calls ---- *)
+Lemma seqq_quiescent st : SeqQ st -> a_quiescent st = true.
+Proof.
+  intros (HX & Hr & _). pose proof (sx_one _ HX) as H1. unfold a_quiescent, get_pc in *.
+  destruct (threads st) as [|p [|q l]]; try discriminate. cbn in *. now rewrite Hr.
+Qed.
+
+Lemma seqq_reset st : SeqQ st -> SeqQ (a_reset st).
+Proof.
+  intros HQ. pose proof (seqq_quiescent st HQ) as Hq. destruct HQ as (HX & Hr & Ho & Hl).
+  assert (Ho' : off (a_reset st) <= 2 * max_alloc) by (change (off (a_reset st)) with 0; lia).
+  split; [|split; [exact Hr|split; [exact Ho'|exact Hl]]].
+  constructor.
+  - apply inv_reset; [apply (sx_inv _ HX)|exact Hq].
+  - apply (sx_one _ HX).
+  - apply (sx_cb _ HX).
+  - change (get_pc (a_reset st) 0) with (get_pc st 0). change (lock (a_reset st)) with (lock st) in *.
+    destruct (get_pc st 0) as [| | | | | | | | |[| |[]]]; try discriminate; cbn [seq_pc]; auto.
+Qed.
+
+Lemma trim_loop_bound cs : forall a m, chunk_bound cs -> chunk_bound (trim_loop cs a m).
+Proof.
+  intros a m Hb i. unfold chunk_len, nthN.
+  destruct (trim_loop_nth cs a m (N.to_nat i)) as [E|E]; rewrite E; [apply Hb|lia].
+Qed.
+
+Lemma seqq_trim st max : SeqQ st -> SeqQ (a_trim_to st max).
+Proof.
+  intros HQ. pose proof (seqq_quiescent st HQ) as Hq. destruct HQ as (HX & Hr & Ho & Hl).
+  split; [|split; [exact Hr|split; [exact Ho|exact Hl]]].
+  constructor.
+  - apply inv_trim; [apply (sx_inv _ HX)|exact Hq].
+  - apply (sx_one _ HX).
+  - apply trim_loop_bound. apply (sx_cb _ HX).
+  - pose proof (sx_pc _ HX) as Hp. change (get_pc (a_trim_to st max) 0) with (get_pc st 0).
+    destruct (get_pc st 0) as [| | | | | | | | |[| |[]]]; try discriminate; exact Hp.
+Qed.
+
+Lemma first_chunk_bound sz : sz <= max_alloc -> first_chunk sz <= 2 * max_alloc.
+Proof.
+  intros Hs. unfold first_chunk, log2_floor.
+  set (s := if sz <? 512 then 512 else sz).
+  assert (Hs1 : 0 < s /\ s <= max_alloc).
+  { unfold s. destruct (N.ltb_spec sz 512); rewrite max_alloc_val in *; lia. }
+  destruct (N.log2_spec s (proj1 Hs1)) as (Hlo & _).
+  destruct (N.eqb_spec (2 ^ N.log2 s) s); [lia|].
+  rewrite N.add_1_r, N.pow_succ_r'. lia.
+Qed.
+
+Lemma seqq_new sz : sz <= max_alloc -> SeqQ (alloc_new 1 sz).
+Proof.
+  intros Hs. split; [|split; [reflexivity|split; [change (off (alloc_new 1 sz)) with 0; lia|reflexivity]]].
+  constructor.
+  - apply inv_new.
+  - reflexivity.
+  - intros i. unfold alloc_new; sstate. unfold chunk_len, nthN.
+    destruct (N.to_nat i) as [|k]; cbn [nth].
+    + now apply first_chunk_bound.
+    + destruct (Nat.lt_ge_cases k (nbuf - 1)).
+      * assert (E : nth k (repeat (@None N) (nbuf - 1)) None = None).
+        { clear. generalize (nbuf - 1)%nat. intros n. revert k. induction n; intros [|k]; cbn; auto. }
+        rewrite E. lia.
+      * rewrite nth_overflow by (rewrite repeat_length; auto). lia.
+  - cbn. split; [change (off (alloc_new 1 sz)) with 0; lia|reflexivity].
+Qed.
+
+Lemma rel_eq sA sB : rel sA sB (chunks sA) -> sB = sA.
+Proof. destruct sA, sB; unfold rel; cbn. intros (-> & -> & -> & -> & ->). reflexivity. Qed.
+
+(* After Reset, replaying the same requests returns the same ranges and leaves the allocator in the same state: in
+   particular `chunks` is unchanged -- no new memory is acquired. *)
+Theorem seq_replay st szs st1 outs :
+  SeqQ st -> alloc_list (a_reset st) 0 szs = (st1, outs) -> Forall good outs ->
+  alloc_list (a_reset st1) 0 szs = (st1, outs) /\ SeqQ st1.
+Proof.
+  intros HQ H Hg. pose proof (seqq_reset st HQ) as HQ0.
+  destruct (alloc_list_future szs _ _ _ HQ0 H Hg) as (HQ1 & _).
+  split; [|exact HQ1].
+  destruct szs as [|sz r].
+  - cbn [alloc_list] in *. inversion H; subst. reflexivity.
+  - destruct (sim_alloc_list (sz :: r) (a_reset st) (a_reset st1) (chunks st1) st1 outs HQ0) as (sB & EB & Hend); auto.
+    + destruct HQ as (_ & _ & _ & Hl). destruct HQ1 as (HX1 & Hr1 & _ & Hl1).
+      unfold relq. change (lock (a_reset st1)) with (lock st1). change (lock (a_reset st)) with (lock st).
+      rewrite Hl, Hl1. repeat split; auto. apply (sx_one _ HX1).
+    + apply ext_refl.
+    + intros i _. reflexivity.
+    + destruct Hend as [(Hnil & _)|HR]; [discriminate|].
+      rewrite EB. f_equal. now apply rel_eq.
+Qed.
+
+Lemma seqq_disjoint st : SeqQ st -> ForallOrdPairs gdisj (handed st) /\ Forall (in_chunk st) (handed st).
+Proof.
+  intros (HX & _). pose proof (sx_inv _ HX) as HI. split; [apply (inv_hh _ HI)|].
+  eapply Forall_impl; [|apply (inv_hb _ HI)]. intros [[b lo] n] ((Hb & _) & Hin).
+  split; auto. pose proof (inv_cur _ HI). lia.
+Qed.
